@@ -9,6 +9,7 @@ TNT-order  at every positional labelling site (zip(names, values)) of a reader
 """
 import ast
 from ..common import calls_in, norm, kw, DF, LOD, GEO
+from ..facts import facts_at
 from ..model import AnalysisError, FunctionInfo, body_nodes
 from ..signatures import sig, forwarded, keyword_value, name_uses
 from ..dataflow import defs_reaching, comprehension_binding
@@ -325,6 +326,15 @@ def check(ctx):
                 continue
             n_cast += 1
             ok = tail != "fast"
+            if not ok:
+                # .fast() on a list that a dominating test has shown to hold only plain scalars of one exact type (no None,
+                # no NaN object): there is nothing for the converting constructor to map
+                a0t = norm(a0)
+                import re as _re14
+                pure = [t for k, t in facts_at(f, c) if k == "T" and _re14.search(
+                    r"all\(\(?type\((\w+)\) is (int|str|bool|float) for \1 in " + _re14.escape(a0t) + r"\)?\)", t)]
+                if pure and not (len(c.args) > 1 or c.keywords):
+                    ok = True
             ctx.ob("CAST-conv", f, norm(c), c, ok,
                    "parsed values are converted by the constructor that maps None/NaN to the dtype's missing value" if ok else
                    f"{norm(c)} builds the column from a Python list of parsed values with the non-converting constructor: a null or "
